@@ -463,7 +463,7 @@ def rich_seeds(ck):
     rec = lambda name, mask, blocks, nch: [0, 0, 2, 2, [[i - 1, 6] for i in range(nch)], S, norm, 255, 0, 8, mask, ranges, name, blocks]
     cds = lambda nch: [[0, bytes([9, 8, 7, 6])] for _ in range(nch)]
     out = []
-    for version in (1, 2):
+    for version, sig64_small in ((1, False), (2, False), (2, True)):
         big = [[S64, K(b"Alph"), bytes(range(1, 11))], [S, K(b"Layr"), bytes(7)]] if version == 2 else [[S, K(b"Alph"), bytes(range(1, 11))]]
         end = lambda: rec(b"</Layer group>", None, [[S, K(b"lsct"), lsct4]], 0)
         recs = [end(),
@@ -471,13 +471,15 @@ def rich_seeds(ck):
                 rec(b"grp1", None, [[S, K(b"lsct"), lsct12]], 0),
                 end(),
                 rec(b"fx b", mask_q, [[S, K(b"lrFX"), fx_b], [S, K(b"SoCo"), soco]], 1),
-                rec(b"grp2", None, [[S, K(b"lsct"), lsct16]] + ([[S64, K(b"abcd"), b"\5\6"]] if version == 2 else []), 0)]
+                rec(b"grp2", None, [[S, K(b"lsct"), lsct16]] + ([[S64, K(b"abcd"), b"\5\6"]] if sig64_small else []), 0)]
         d = [[F.SIG_8BPS, version, 3, 2, 2, 8, 3], b"", [[S, 1001, b"", b"\1\2\3"]],
              [[6, recs, [cds(0), cds(2), cds(0), cds(0), cds(1), cds(0)]], [[0, 65535, 0, 0, 0], 50, 128], [[S, K(b"Patt"), patt]] + big],
              [0, bytes(12)]]
         f = io.BytesIO()
         F.obj_psd(d, "macroman").write(f)
-        out.append(("rich:v%d" % version, f.getvalue()))
+        # the third document adds an '8B64' block with a 4-byte length (key outside _BIG_KEYS): kept apart, so that a reader that
+        # disagrees about such blocks still accepts the second document and its mutants
+        out.append(("rich:v%d%s" % (version, "+sig64" if sig64_small else ""), f.getvalue()))
     return out
 
 
@@ -574,7 +576,7 @@ def run():
     inputs, meta = [], {}
     rich = rich_seeds(ck)
     seedlist = list(c06.seeds(ck)) + tiny_seeds(ck) + rich
-    richnames = {n for n, _ in rich}
+    richnames = {n for n, _ in rich if not n.endswith("+sig64")}
     for name, b in seedlist:
         inputs.append((len(inputs), b))
         meta[len(inputs) - 1] = (name, "seed")
